@@ -9,17 +9,21 @@ Open Scope Z_scope.
 (* (mode, side, key value, key id, (salt, session, msg_id, seq_no), mlen, payload, random bytes,
     observed Encrypt, observed DecryptFromBuffer of that output on the other side)
    mode 0: EncryptedMessageData{Message: payload} (mlen ignored); mode 1: explicit MessageDataLen = mlen,
-   MessageDataWithPadding = payload. *)
-Definition case := (Z * Z * packed * packed * (Z * Z * Z * Z) * Z * packed * packed * (Z * packed) * obs_dec_p)%type.
+   MessageDataWithPadding = payload; mode 3: a real mtproto.Conn (client) sent [payload] with
+   compressThreshold = mlen, [aux] = encoding of proto.GZIP{payload} computed by Go.
+   Last component: aux byte string. *)
+Definition case := (Z * Z * packed * packed * (Z * Z * Z * Z) * Z * packed * packed * (Z * packed) * obs_dec_p * packed)%type.
 
 Definition ok (c : case) : bool :=
-  let '(mode, sd, kv, kid, (salt, sess, mid, seq), mlen, payload, rnd, oenc, odec) := c in
+  let '(mode, sd, kv, kid, (salt, sess, mid, seq), mlen, payload, rnd, oenc, odec, aux) := c in
   let kv := unpack kv in let kid := unpack kid in let payload := unpack payload in let rnd := unpack rnd in
   let oenc := (fst oenc, unpack (snd oenc)) in let odec := unpack_obs_dec odec in
   let s := side_of sd in
   let k := {| ak_value := kv; ak_id := kid |} in
   let h := {| h_salt := salt; h_session := sess; h_msg_id := mid; h_seq_no := seq |} in
-  let r := if mode =? 0 then x_encrypt s k h payload rnd else x_encrypt_data s k h mlen payload rnd in
+  let r := if mode =? 0 then x_encrypt s k h payload rnd
+           else if mode =? 3 then x_conn_encrypt mlen k salt sess mid seq payload (unpack aux) rnd
+           else x_encrypt_data s k h mlen payload rnd in
   obs_bytes_eqb (obs_bytes r) oenc &&
   match r with
   | Ok ct => obs_dec_eqb (obs_dec (x_decrypt (other s) k ct)) odec
